@@ -285,7 +285,7 @@ func driveSpec(args []string) error {
 			// sampled tiers always keep the rare edits that only apply at a few pointers (next to an existing $ref)
 			var always, rest []gen.Edit
 			for _, e := range edits {
-				if e.Kind == "ref-xsibling" {
+				if e.Kind == "ref-xsibling" || e.Kind == "name-dotted" {
 					always = append(always, e)
 				} else {
 					rest = append(rest, e)
